@@ -47,6 +47,27 @@ func init() {
 			return
 		}
 		ve.RunTargets("C08", r, "guard-idx", "guard-len", "err")
+		// error discipline of the decoders of untrusted bytes
+		nDec := 0
+		for _, fn := range p.Funcs {
+			if fn.Parent() != nil || fn.Synthetic != "" {
+				continue
+			}
+			pk := FuncPkg(fn)
+			if pk == nil {
+				continue
+			}
+			ap := Abstract(pk.Path())
+			if ap != "github.com/consensys/gnark/backend/groth16/<curve>" && ap != "github.com/consensys/gnark/backend/plonk/<curve>" && ap != "github.com/consensys/gnark/backend/witness" {
+				continue
+			}
+			switch funcBaseName(fn) {
+			case "ReadFrom", "readFrom", "UnsafeReadFrom", "UnmarshalBinary", "ReadDump", "FromJSON", "UnmarshalJSON":
+				nDec++
+				ve.errDisciplineFn(fn, fn, r)
+			}
+		}
+		r.Extra["decoders_checked"] = nDec
 		r.RequireMin("V-GUARD-IDX", 14*3)
 		r.RequireMin("V-GUARD-LEN", 14*2)
 	})
